@@ -352,6 +352,38 @@ fn hostile(rng: &mut Rng, base: &str) -> String {
     s.into_iter().collect()
 }
 
+
+/// a marker text with uninterpretable comparisons inserted at arbitrary positions, together with the
+/// same text without them (`None`: nothing remains).  kind: 0 leaf, 1 and, 2 or
+fn gen_with_dropped(rng: &mut Rng, depth: usize, inserted: &mut usize) -> (String, Option<String>, u8) {
+    let meaningful = ["os_name == 'nt'", "python_version >= '3.8'", "extra == 'dev'", "sys_platform != 'win32'", "'arm' in platform_machine", "python_full_version < '3.10.2'", "implementation_name == 'cpython'"];
+    let dropped = ["'a' == 'b'", "os_name == sys_platform", "python_version == 'abc'", "'abc' <= python_version", "os_name ~= 'x'", "'x' ~= os_name", "extra < 'x'", "'x' in extra", "extra in 'x'", "python_version >= os_name", "extra == os_name", "'1' not in '2'"];
+    let wrap = |rng: &mut Rng, t: (String, Option<String>, u8), must: bool| -> (String, Option<String>) {
+        let k = if must { 1 + rng.below(2) } else { match rng.below(5) { 0 => 1, 1 => 2, _ => 0 } };
+        let (mut w, mut wo) = (t.0, t.1);
+        for _ in 0..k { w = format!("({w})"); wo = wo.map(|x| format!("({x})")); }
+        (w, wo)
+    };
+    if depth == 0 || rng.chance(1, 4) {
+        if rng.chance(2, 5) { *inserted += 1; return (rng.pick(&dropped).to_string(), None, 0); }
+        let m = rng.pick(&meaningful).to_string();
+        return (m.clone(), Some(m), 0);
+    }
+    let is_and = rng.chance(1, 2);
+    let l = gen_with_dropped(rng, depth - 1, inserted);
+    let r = gen_with_dropped(rng, depth - 1, inserted);
+    let (lk, rk) = (l.2, r.2);
+    let (lw, lwo) = wrap(rng, l, is_and && lk == 2);
+    let (rw, rwo) = wrap(rng, r, is_and && rk == 2);
+    let op = if is_and { "and" } else { "or" };
+    let wo = match (lwo, rwo) {
+        (Some(a), Some(b)) => Some(format!("({a}) {op} ({b})")),
+        (Some(a), None) | (None, Some(a)) => Some(a),
+        (None, None) => None,
+    };
+    (format!("{lw} {op} {rw}"), wo, if is_and { 1 } else { 2 })
+}
+
 /// every kind of operand for the C17 table
 fn operand_texts() -> Vec<(&'static str, Vec<&'static str>)> {
     vec![
@@ -387,6 +419,30 @@ pub fn run(out: &mut Out, tier: &str, seed: u64, prop: &str) {
             }
         }
     }
+    // ---- uninterpretable comparisons at any position, inside any parenthesised group --------------
+    if prop == "C17" {
+        let n = if big { 6000 } else { 1500 };
+        for _ in 0..n {
+            let mut inserted = 0;
+            let depth = 1 + rng.below(3);
+            let (with, without, _) = gen_with_dropped(&mut rng, depth, &mut inserted);
+            if inserted == 0 { continue; }
+            let pa = parse_case(out, &mut w, prop, "m", &with);
+            let input = serde_json::json!({"text": with, "without": without, "answer": pa.answer});
+            let Some(d) = pa.answer.strip_prefix("ok ") else {
+                out.oracle_fail("C17", "a marker containing an uninterpretable comparison is rejected instead of parsed with a warning", input);
+                continue;
+            };
+            let (got, warns) = d.rsplit_once(" w=").unwrap_or((d, "-"));
+            let want = match &without { Some(t) => MarkerTree::from_str(t).map(|m| dump(&m)).unwrap_or_default(), None => dump(&MarkerTree::TRUE) };
+            if got != want {
+                out.oracle_fail("C17", "the marker is not the marker with exactly the uninterpretable comparisons removed", input.clone());
+            }
+            if warns == "-" { out.oracle_fail("C17", "an uninterpretable comparison was dropped without any warning", input.clone()); }
+            out.stat("c17.positions");
+            out.nontrivial(with.clone());
+        }
+    }
     // ---- corpus of minimised past failures / recorded findings, first ----------------------------
     if prop == "C06" || prop == "C07" || prop == "C17" {
         for line in std::fs::read_to_string("/verif/corpus/marker.txt").unwrap_or_default().lines() {
@@ -399,6 +455,27 @@ pub fn run(out: &mut Out, tier: &str, seed: u64, prop: &str) {
             if prop == "C07" && tag == "C07" && !pa.answer.starts_with("ok ") {
                 out.oracle_fail("C07", &format!("a marker derivable from the PEP 508 grammar is rejected: {}", pa.answer), serde_json::json!({"text": text, "class": "corpus"}));
             }
+        }
+    }
+    // ---- trailing input of every width mix after a complete marker: the error span is counted in
+    //      chars there, so its end can land 1, 2 or 3 bytes inside a character ------------------------
+    if prop == "C06" {
+        let alphabet = ["a", "é", "語", "\u{1F600}"];
+        let maxlen = if big { 6 } else { 5 };
+        let mut seqs: Vec<String> = vec![String::new()];
+        let mut frontier = seqs.clone();
+        for _ in 0..maxlen {
+            let mut next = vec![];
+            for s in &frontier { for a in alphabet { next.push(format!("{s}{a}")); } }
+            seqs.extend(next.iter().cloned());
+            frontier = next;
+        }
+        for s in seqs.iter().skip(1) {
+            for (mode, pre) in [("m", "os_name == 'a' "), ("e", "os_name == 'a' "), ("m", "(os_name == 'a')x")] {
+                parse_case(out, &mut w, prop, mode, &format!("{pre}{s}"));
+                out.stat("trailing.width_mix");
+            }
+            out.nontrivial(format!("trail {}", s.chars().map(|c| c.len_utf8().to_string()).collect::<String>()));
         }
     }
     // ---- (2) derivations × layouts --------------------------------------------------------------
